@@ -66,8 +66,8 @@ theorem retry_after_failed_start (P : Params) (hP : P.Good) (l : Launch) (alive 
 open Lifecycle in
 /-- Witness: if Kill's deferred function did not remove the directory it would stay. -/
 theorem dir_left_witness :
-    ∃ s, runFrom ⟨true, true, true, false, true, true⟩ (init .runnerFunc false) [.start false, .killA false false, .killB] = some s ∧
+    ∃ s, runFrom ⟨true, true, true, false, true, true, true⟩ (init .runnerFunc false) [.start false, .killA false false, .killB] = some s ∧
       s.dirsLive = 1 := by
-  refine ⟨(runFrom ⟨true, true, true, false, true, true⟩ (init .runnerFunc false) [.start false, .killA false false, .killB]).get (by decide), by simp, by decide⟩
+  refine ⟨(runFrom ⟨true, true, true, false, true, true, true⟩ (init .runnerFunc false) [.start false, .killA false false, .killB]).get (by decide), by simp, by decide⟩
 
 end GoPlugin.Props.C05
